@@ -9,9 +9,9 @@ checks = {
  "C06": dict(cat="exploration", tech="runtime monitoring: differential trace monitor (table-driven programs vs reference toolchain) + BigInt oracle over direct prelude helper calls",
    text="Every (numeric type, operator, operand shape) is executed on a boundary grid squared, PRNG operands, all shift counts, 8-bit exhaustively, all numeric conversions, multiplication/division/remainder by constants of every bit length, shifts whose operands have ordered side effects, and random expression trees; integer results are also folded after conversion to float64 (exposes -0); digests and sampled raw results must equal the reference toolchain's; the prelude's 64-bit helpers are called directly on ~7e5 operand pairs against BigInt. Held-on-observed, not a proof.", ref="DESIGN.md §4 C06"),
  "C14": dict(cat="exploration", tech="runtime monitoring: differential trace monitor over run-time enumerated byte strings and generated string literals vs reference toolchain",
-   text="All byte strings over a 24-byte boundary alphabet up to length 4 are enumerated at run time (len, index, every slice, range, []rune/[]byte conversions, comparisons, concatenation, map keys, switch, bounds panics), PRNG strings up to 64 bytes, rune conversions at encoding boundaries, and a generated table of literals in every escape form; each category digest must equal the reference's.", ref="DESIGN.md §4 C14"),
+   text="All byte strings over a 24-byte boundary alphabet up to length 4 are enumerated at run time (len, index, every slice, range, []rune/[]byte conversions, comparisons, concatenation, map keys, switch, bounds panics), PRNG strings up to 64 bytes, rune conversions at encoding boundaries, every form of the range clause, conversions of long byte slices/strings at every offset and length around the run-time chunk size, a generated table of literals in every escape form incl. every byte followed by escape-sensitive characters; each category digest must equal the reference's.", ref="DESIGN.md §4 C14"),
  "C15": dict(cat="exploration", tech="runtime monitoring: differential state-digest monitor over PRNG map operation histories + in-program range-contract monitor vs reference toolchain",
-   text="For ~50 (quick) / ~400 (thorough) comparable key types incl. nested arrays/structs, interfaces with equal-looking values of distinct dynamic types, NaN/±0, pointers and channels: PRNG histories of insert/overwrite/delete/lookup/len/range-with-mutation; after every step len, comma-ok lookup of every pool key and an order-insensitive range fold are digested and compared with the reference; the range visiting contract is checked by a monitor in the program.", ref="DESIGN.md §4 C15"),
+   text="For ~50 (quick) / ~400 (thorough) comparable key types incl. nested arrays/structs, interfaces with equal-looking values of distinct dynamic types, NaN/±0, pointers and channels: PRNG histories of insert/overwrite/delete/lookup/len/range-with-mutation; after every step len, comma-ok lookup of every pool key and an order-insensitive range fold are digested and compared with the reference; the range visiting contract is checked by a monitor in the program. Pools cover 64-bit keys around 2^53/2^62/min/max, every pair of strings over the key-escaping characters in arrays/structs/interfaces, one object under several dynamic types as interface key, and keys taken from getters of variables that change afterwards.", ref="DESIGN.md §4 C15"),
 }
 extra = V + '/tools/manifest_extra.json'
 if os.path.exists(extra):
